@@ -11,9 +11,9 @@ from testtools.testresult import doubles
 from testtools.testresult.real import (ExtendedToStreamDecorator, TestResult)
 
 # behaviour alphabet -------------------------------------------------------------------------
-RET, FAIL, ERROR, SKIP, XFAIL, UXS, MULTI, KI, SYSEXIT, SKIPSUB, CUSTOM = range(11)
+RET, FAIL, ERROR, SKIP, XFAIL, UXS, MULTI, KI, SYSEXIT, SKIPSUB, CUSTOM, NMULTI = range(12)
 KIND_NAMES = ["ret", "fail", "error", "skip", "xfail", "uxsuccess", "multi", "ki", "sysexit",
-              "skipsub", "custom"]
+              "skipsub", "custom", "nested-multi"]
 N_KINDS = 10          # CUSTOM is only used by the handler harness
 BASE_KINDS = (KI, SYSEXIT)
 
@@ -56,6 +56,9 @@ def behave(case, kind):
         raise SubSkip("sub")
     if kind == CUSTOM:
         raise CustomError("custom")
+    if kind == NMULTI:
+        inner = MultipleExceptions(_exc_info(RuntimeError("n-err-1")), _exc_info(RuntimeError("n-err-2")))
+        raise MultipleExceptions(_exc_info(AssertionError("n-fail")), _exc_info(inner))
     raise ValueError(kind)
 
 
@@ -63,7 +66,7 @@ def behave(case, kind):
 FLATTEN = {
     RET: [], FAIL: ["failure"], ERROR: ["error"], SKIP: ["skip"], XFAIL: ["xfail"],
     UXS: ["uxsuccess"], MULTI: ["failure", "error"], KI: ["base"], SYSEXIT: ["base"],
-    SKIPSUB: ["skip"], CUSTOM: ["custom"],
+    SKIPSUB: ["skip"], CUSTOM: ["custom"], NMULTI: ["failure", "error", "error"],
 }
 UNSUCCESSFUL = ("failure", "error", "uxsuccess")
 
